@@ -22,6 +22,8 @@ class RefLssSlave:
         self.activated = None
         # reply disturbance for configure / inquire / store: None | ("error", code, spec) | ("wrong-cs", cs) | ("silent",)
         self.reply_mode = None
+        # a busy device: [n, extra] = the n-th reply from now on leaves `extra` ns later than usual (still inside the master's time-out)
+        self.slow_reply = None
         endpoint.handler = self.handler
 
     def _bad(self, reason, d):
@@ -32,6 +34,12 @@ class RefLssSlave:
         m = self.reply_mode
         if m is not None and m[0] == "late":
             extra = m[1]
+        if self.slow_reply is not None:
+            self.slow_reply[0] -= 1
+            if self.slow_reply[0] == 0:
+                extra += self.slow_reply[1]
+                self.slow_reply = None
+                self.ctx.probe("slow-reply-inside-timeout")
         self.ep.send(0x7E4, bytes(data), delay=self.resp_delay + extra)
 
     def handler(self, can_id, data, rtr, ts):
